@@ -58,6 +58,39 @@ type evLeaves struct {
 	numFrom, numTo string
 	len1, len2     uint64
 	container      int // 0: Header is not used inside a map/array; 1: also as a map value; 2: also as a dynamic-array element
+	// enum-value-changed: the base type of Kind and the value of its symbol b before / after (sign, magnitude)
+	enumBase               string
+	enumOldNeg, enumNewNeg bool
+	enumOldMag, enumNewMag uint64
+}
+
+// evEnumPool: boundary values of an enum base type as (negative, magnitude) pairs; 0 and 2 are the values of the
+// neighbouring symbols a and c
+func evEnumPool(base string) (neg []bool, mag []uint64) {
+	add := func(n bool, m uint64) { neg, mag = append(neg, n), append(mag, m) }
+	w := uint(primWidth(base))
+	if base[0] == 'u' {
+		add(false, 1)
+		add(false, 7)
+		add(false, uint64(1)<<(w-1))
+		add(false, (uint64(1)<<(w-1))-1+(uint64(1)<<(w-1)))
+		return
+	}
+	add(true, uint64(1)<<(w-1))
+	add(true, 7)
+	add(true, 1)
+	add(false, 1)
+	add(false, 7)
+	add(false, (uint64(1)<<(w-1))-1)
+	return
+}
+
+func evBig(neg bool, mag uint64) big.Int {
+	x := new(big.Int).SetUint64(mag)
+	if neg {
+		x = new(big.Int).Neg(x)
+	}
+	return *x
 }
 
 func evModel(b *mb, e int, hdr bool, L *evLeaves, isNew bool) *dsl.Namespace {
@@ -98,8 +131,18 @@ func evModel(b *mb, e int, hdr bool, L *evLeaves, isNew bool) *dsl.Namespace {
 	if ed(evEnumBaseChanged) {
 		base = b.st("int64")
 	}
+	if e == evEnumValueChanged && L.enumBase != "" {
+		base = b.st(L.enumBase)
+	}
 	kind := b.enum(ns, "Kind", base, "a", "b", "c")
-	if ed(evEnumValueChanged) {
+	if e == evEnumValueChanged && L.enumBase != "" {
+		// the value of b before and after the edit (a = 0 and c = 2 stay)
+		if isNew {
+			kind.Values[1].IntegerValue = evBig(L.enumNewNeg, L.enumNewMag)
+		} else {
+			kind.Values[1].IntegerValue = evBig(L.enumOldNeg, L.enumOldMag)
+		}
+	} else if ed(evEnumValueChanged) {
 		kind.Values[1].IntegerValue = *big.NewInt(7)
 	}
 	if ed(evEnumValueRemoved) {
@@ -197,6 +240,16 @@ func C06Env() {
 	}
 	if e == evVectorLengthChanged {
 		L.len1, L.len2 = verifUint64("len1"), verifUint64("len2")
+	}
+	if e == evEnumValueChanged {
+		// any two different values of the symbol, over the boundary values of a symbolic base type (a change of sign included)
+		bases := []string{"int8", "int16", "int32", "int64", "uint8", "uint64"}
+		L.enumBase = bases[verifChoose("enum-base", len(bases))]
+		negs, mags := evEnumPool(L.enumBase)
+		io, in := verifChoose("enum-old-value", len(mags)), verifChoose("enum-new-value", len(mags))
+		verifAssume(io != in)
+		L.enumOldNeg, L.enumOldMag, L.enumNewNeg, L.enumNewMag = negs[io], mags[io], negs[in], mags[in]
+		verifOut("enum-base", L.enumBase)
 	}
 	verifOut("edit", evNames[e])
 	oldEnv, errOld := dsl.Validate([]*dsl.Namespace{evModel(&mb{file: "v0/model.yml"}, e, hdr, L, false)})
